@@ -1,6 +1,6 @@
 """Rule registry."""
-from . import calendar_mode
+from . import calendar_mode, normalise
 
 ALL_RULES = {}
-for _mod in (calendar_mode,):
+for _mod in (calendar_mode, normalise):
     ALL_RULES.update(_mod.RULES)
